@@ -130,7 +130,7 @@ func c11ChildMain() {
 				out.GasUsed = k.GasUsed
 			}
 			out.MS = time.Since(t0).Milliseconds()
-			_, out.RSSMB = c11RSSMB()
+			out.RSSMB, _ = c11RSSMB() // resident set right after the input, before any forced GC
 			out.BaseMB = base
 			curMu.Lock()
 			cur = -1
